@@ -52,6 +52,7 @@
 #include <fcppt/parse/skipper/basic_char_set.hpp>
 #include <fcppt/parse/skipper/epsilon.hpp>
 #include <fcppt/parse/skipper/operators/repetition.hpp>
+#include <fcppt/parse/operators/sequence.hpp>
 
 extern "C" std::string c02_loc_text(fcppt::parse::location const &, std::locale const &) { return std::string{"l:c"}; }
 extern "C" std::wstring c02_wloc_text(fcppt::parse::location const &, std::locale const &) { return std::wstring{L"l:c"}; }
@@ -301,3 +302,52 @@ VERIF_HARNESS(h_e08)
 }
 //@harness h_e08 param n=0..3 tier=quick loop=24
 //@harness h_e08 param n=4..4 tier=thorough loop=24 wall=1500
+
+// e09 / e10: a leftover that BEGINS WITH A NEWLINE is still a leftover ("a\nb", "a\n" for literal{'a'}; "a a\nx" under
+// the space skipper, where the sequence stops right after the second a).  A '\n' is forced right after the accepted
+// prefix position, every other character is symbolic; closed-form oracle, independent of the reference interpreter.
+VERIF_HARNESS(h_e09)
+{
+  c12::check_istringstream_layout<char>();
+  text<char> t;
+  unsigned const n = len();
+  fresh_text(t, n);
+  verif_assume(n < 2 || t.b[1] == '\n');
+  p::basic_literal<char> const parser{'a'};
+  auto const a{p::parse_string(parser, t.str())};
+  auto const b{p::phrase_parse_string(parser, t.str(), make_blank_skipper<char>())};
+  verif_out("parse_string", a.has_success());
+  verif_out("phrase_parse_string", b.has_success());
+  verif_assert(a.has_success() == (n == 1 && t.b[0] == 'a'), "parse_string(literal a): exactly the input a; a followed by a newline is not consumed completely");
+  // with the blank skipper: leading blanks are skipped, then a; anything after it (blank or not, newline included) is left over
+  bool ok = false;
+  for (unsigned i = 0; i < n; ++i)
+  {
+    bool blanks = true;
+    for (unsigned j = 0; j < i; ++j)
+      blanks = blanks && (t.b[j] == ' ' || t.b[j] == '\n' || t.b[j] == '\t');
+    ok = ok || (blanks && t.b[i] == 'a' && i + 1 == n);
+  }
+  verif_assert(b.has_success() == ok, "phrase_parse_string(literal a, blanks): blanks then a and nothing else");
+  verif_reach("end");
+}
+//@harness h_e09 param n=0..3 tier=quick loop=24
+VERIF_HARNESS(h_e10)
+{
+  c12::check_istringstream_layout<char>();
+  text<char> t;
+  unsigned const n = len();
+  fresh_text(t, n);
+  verif_assume(t.b[0] == 'a' && t.b[n - 2] == '\n'); // "a?..\n?" : the last but one character is a newline
+  auto const parser{p::basic_literal<char>{'a'} >> p::basic_literal<char>{'a'}};
+  auto const r{p::phrase_parse_string(parser, t.str(), make_blank_skipper<char>())};
+  verif_out("ok", r.has_success());
+  // a, blanks, a must use up the input; but the character after the forced newline is then left over unless ... it IS
+  // the second a: "a\na" (n = 3) or "a \na" (n = 4) succeed, "a a\nx" never does
+  bool blanks = true;
+  for (unsigned j = 1; j + 1 < n; ++j)
+    blanks = blanks && (t.b[j] == ' ' || t.b[j] == '\n' || t.b[j] == '\t');
+  verif_assert(r.has_success() == (blanks && t.b[n - 1] == 'a'), "a >> a under blanks: a newline-led leftover is a failure");
+  verif_reach("end");
+}
+//@harness h_e10 param n=3..5 tier=quick loop=24
